@@ -56,19 +56,39 @@ const remotePeerId = "remotePeer"
 
 // ---- a peer: one real space storage in its own any-store ------------------------------------
 
+// faultDB is the real any-store DB with one switch: while failWrites is set every explicit write
+// transaction any-sync opens (storage.Delete, AddAll, CreateStorage, …) fails at WriteTx, the way a
+// cancelled context, a full disk or a busy writer makes it fail. Everything else goes to the real DB.
+type faultDB struct {
+	anystore.DB
+	failWrites bool
+	failed     int
+}
+
+var errInjected = errors.New("verif: injected storage fault")
+
+func (d *faultDB) WriteTx(ctx context.Context) (anystore.WriteTx, error) {
+	if d.failWrites {
+		d.failed++
+		return nil, errInjected
+	}
+	return d.DB.WriteTx(ctx)
+}
+
 type peerEnv struct {
 	dir  string
-	db   anystore.DB
+	db   *faultDB
 	st   spacestorage.SpaceStorage
 	acl  list.AclList
 	keys *accountdata.AccountKeys
 }
 
 func openPeer(dir string, keys *accountdata.AccountKeys, payload *spacestorage.SpaceStorageCreatePayload, spaceId string) (*peerEnv, error) {
-	db, err := anystore.Open(ctx, filepath.Join(dir, "store.db"), nil)
+	rdb, err := anystore.Open(ctx, filepath.Join(dir, "store.db"), nil)
 	if err != nil {
 		return nil, err
 	}
+	db := &faultDB{DB: rdb}
 	var st spacestorage.SpaceStorage
 	if payload != nil {
 		st, err = spacestorage.Create(ctx, db, *payload)
@@ -188,6 +208,7 @@ func (t *fakeTreeManager) MarkTreeDeleted(ctx context.Context, spaceId, treeId s
 	return nil
 }
 func (t *fakeTreeManager) DeleteTree(ctx context.Context, spaceId, treeId string) error {
+	defer t.done(treeId) // whatever the outcome: the first id of the pass has been handled
 	tr, err := t.w.getTree(ctx, treeId)
 	if err != nil {
 		return err
@@ -196,7 +217,6 @@ func (t *fakeTreeManager) DeleteTree(ctx context.Context, spaceId, treeId string
 		return err
 	}
 	delete(t.w.live, treeId)
-	t.done(treeId)
 	return nil
 }
 
